@@ -4,11 +4,13 @@ pub mod recon;
 
 pub mod c01;
 pub mod c02;
+pub mod c03;
+pub mod c05;
 pub mod c08;
 pub mod c13;
 
 use crate::PropDef;
 
 pub fn all() -> Vec<PropDef> {
-    vec![c01::def(), c02::def(), c08::def(), c13::def()]
+    vec![c01::def(), c02::def(), c03::def(), c05::def(), c08::def(), c13::def()]
 }
